@@ -63,11 +63,12 @@ def main():
         keep = [f.split("=", 1)[1] for f in flags if f.startswith("--keep=")]
         if keep:
             import json, shutil
-            d = os.path.join("/verif/seeded", keep[0])
+            root = [f.split("=", 1)[1] for f in flags if f.startswith("--root=")]
+            d = os.path.join("/verif", root[0] if root else "seeded", keep[0])
             os.makedirs(d, exist_ok=True)
             shutil.copy(patch, os.path.join(d, "patch.diff"))
             if demo != "-":
-                shutil.copy(demo, os.path.join(d, "demo.py"))
+                shutil.copy(demo, os.path.join(d, "demo.py" if not root else "check.py"))
             meta = {}
             mp = [f.split("=", 1)[1] for f in flags if f.startswith("--meta=")]
             if mp and os.path.exists(mp[0]):
